@@ -89,9 +89,12 @@ def check_case(case, shard, inner):
     except E.FailedMinimization:
         shard.skip("fit reported failure")
         return
+    except ValueError as e:
+        # SciPy's root finder refusing a bracket / NaN curves are domain problems of the generated model, not verdicts
+        shard.skip("scan raised ValueError (domain: crossing not bracketed or NaN curve)")
+        return
     except Exception as e:
-        # not bracketing / nan curves are domain problems of the generated model, not verdicts
-        shard.skip(f"scan raised {type(e).__name__} (domain: crossing not bracketed)")
+        shard.violate(f"C09/scan-raised:{case['backend']}", f"{case['mode']} scan raised {type(e).__name__}: {str(e)[:200]}; {ctx}", case, "auto_limit" if case["mode"] != "grid" else "grid_limit")
         return
     limits = [float(to_np(obs))] + [float(to_np(x)) for x in exp]
     calls = list(inner.calls)
@@ -255,15 +258,20 @@ def make_case(rng, backend, kind):
         case["bracket"] = [0.05, 8.0]
     if mode == "auto":
         case["deprecated_api"] = rng.random() < 0.25
-    if rng.random() < 0.7:
+    if rng.random() < 0.7 and backend in ("numpy", "pytorch"):
         case["second_level"] = rng.choice([l for l in LEVELS if l != level])
-    case["check_curves"] = [0, rng.randint(1, 5)]
+    if backend in ("jax", "tensorflow"):
+        # slow backends (per-model jit compilation / 1.5 s per hypotest): one curve re-evaluated, small grids
+        case["check_curves"] = [0]
+        if mode == "grid":
+            case["grid"][2] = 6
+    case.setdefault("check_curves", [0, rng.randint(1, 5)])
     return case
 
 
 def plan(tier, seed):
     if tier == "quick":
-        lay = [("numpy", 4)] * 13 + [("jax", 1), ("pytorch", 2), ("tensorflow", 1)]
+        lay = [("numpy", 4)] * 10 + [("jax", 1), ("jax", 1), ("pytorch", 3), ("pytorch", 3), ("tensorflow", 1), ("tensorflow", 1)]
     else:
         lay = [("numpy", 60)] * 12 + [("jax", 8), ("pytorch", 20), ("pytorch", 20), ("tensorflow", 6)]
     return [{"backend": b, "n": n, "seed": seed * 5915587277 + i} for i, (b, n) in enumerate(lay)]
